@@ -36,6 +36,12 @@ type Job struct {
 	TraceAll  bool           `json:"trace_all,omitempty"` // determinism self-test: log every run's trace hash
 	Status    string         `json:"status"`              // file updated before each run (for crash attribution)
 	Known     []KnownFinding `json:"known,omitempty"`
+	OnlySeed  int64          `json:"only_seed,omitempty"` // execute the run of this seed only
+	// history replay: execute runs RunOffset..HistoryTo with the seeds of worker
+	// HistoryWorker, report the violations of the last one only
+	HistoryTo     int  `json:"history_to,omitempty"`
+	HistoryWorker int  `json:"history_worker,omitempty"`
+	History       bool `json:"history,omitempty"`
 }
 
 // KnownFinding mirrors an entry of /verif/KNOWN_FINDINGS.
@@ -68,6 +74,22 @@ type Replay struct {
 	Minimised  bool             `json:"minimised"`
 	Note       string           `json:"note,omitempty"`
 	TreeHash   string           `json:"tree_hash,omitempty"`
+	// History names the runs the reporting worker process had executed before
+	// this one (all functions of these numbers). A violation that depends on
+	// what the collector's process did in earlier runs - state the program keeps
+	// for the life of the process - is replayed by executing runs From..To in a
+	// fresh process; the violation must recur in run To.
+	History *RunHistory `json:"history,omitempty"`
+}
+
+// RunHistory identifies a stretch of one worker's runs.
+type RunHistory struct {
+	JobSeed int64  `json:"job_seed"`
+	Worker  int    `json:"worker"`
+	Tier    string `json:"tier"`
+	From    int    `json:"from"`
+	To      int    `json:"to"`
+	Replay  bool   `json:"replay,omitempty"` // set by verifctl: replay through the history, the plan alone does not reproduce it
 }
 
 // TraceStep is one scheduling decision in human-readable form.
@@ -239,8 +261,14 @@ func TestVerif(t *testing.T) {
 	}
 
 	if job.Replay != "" {
-		replayFile(t, &job, res)
-		return
+		if h := historyOf(job.Replay); h != nil {
+			job.Replay, job.History, job.Seed, job.Tier = "", true, h.JobSeed, h.Tier
+			job.HistoryWorker, job.RunOffset, job.HistoryTo, job.MaxRuns = h.Worker, h.From, h.To, 0
+			job.Known = nil
+		} else {
+			replayFile(t, &job, res)
+			return
+		}
 	}
 	scs := registry[job.Prop]
 	if len(scs) == 0 {
@@ -255,15 +283,24 @@ func TestVerif(t *testing.T) {
 	distinct := map[uint64]bool{}
 	proj := map[uint64]bool{}
 	states := map[uint64]bool{}
-	seenViol := map[string]bool{}
+	seenViol := map[string]int{}
 	for run := job.RunOffset; ; run++ {
 		if job.MaxRuns > 0 && run-job.RunOffset >= job.MaxRuns {
 			break
 		}
-		if time.Since(start) > time.Duration(job.BudgetSec)*time.Second {
+		if time.Since(start) > time.Duration(job.BudgetSec)*time.Second && !job.History {
+			break
+		}
+		if job.History && run > job.HistoryTo {
 			break
 		}
 		seed := runSeed(job.Seed, job.Prop, job.Worker, run)
+		if job.History {
+			seed = runSeed(job.Seed, job.Prop, job.HistoryWorker, run)
+		}
+		if job.OnlySeed != 0 {
+			seed = job.OnlySeed
+		}
 		// scenario choice from the seed
 		k := int(splitmix(uint64(seed)) % uint64(totalW))
 		var sc *Scenario
@@ -312,6 +349,19 @@ func TestVerif(t *testing.T) {
 		if out.Sample != nil && len(res.Samples) < 3 {
 			res.Samples = append(res.Samples, out.Sample)
 		}
+		if job.History {
+			if run == job.HistoryTo {
+				for _, v := range out.Violations {
+					if matchKnown(job.Known, v) != nil {
+						continue
+					}
+					res.Violations = append(res.Violations, Replay{Prop: job.Prop, Scenario: sc.Name, Violation: v, Seed: seed, Plan: plan, Choices: out.Choices, Faults: out.Faults,
+						Note:    "depends on what the process executed before: replayed through the history of runs",
+						History: &RunHistory{JobSeed: job.Seed, Worker: job.HistoryWorker, Tier: job.Tier, From: job.RunOffset, To: run, Replay: true}})
+				}
+			}
+			continue
+		}
 		for _, v := range out.Violations {
 			if kf := matchKnown(job.Known, v); kf != nil {
 				res.Known[kf.Match]++
@@ -319,11 +369,16 @@ func TestVerif(t *testing.T) {
 				continue
 			}
 			vk := v.Class + "|" + v.Key
-			if seenViol[vk] || len(res.Violations) >= 3 {
+			// a few occurrences per key: one that depends on what the process
+			// executed before does not reproduce elsewhere, a later one may
+			if seenViol[vk] >= 2 || len(res.Violations) >= 4 {
 				continue
 			}
-			seenViol[vk] = true
+			seenViol[vk]++
 			rp := Replay{Prop: job.Prop, Scenario: sc.Name, Violation: v, Seed: seed, Plan: plan, Choices: out.Choices, Faults: out.Faults}
+			if job.OnlySeed == 0 {
+				rp.History = &RunHistory{JobSeed: job.Seed, Worker: job.Worker, Tier: job.Tier, From: job.RunOffset, To: run}
+			}
 			if job.Minimise && v.Class != "race" {
 				rp = minimise(t, sc, &job, rp)
 			}
@@ -338,7 +393,7 @@ func TestVerif(t *testing.T) {
 			}
 			res.Violations = append(res.Violations, rp)
 		}
-		if len(res.Violations) >= 3 {
+		if len(res.Violations) >= 4 {
 			break
 		}
 	}
@@ -376,6 +431,22 @@ func hasViolation(vs []Violation, class string) bool {
 	return false
 }
 
+// historyOf returns the history of a replay file that is to be replayed
+// through its history.
+func historyOf(path string) *RunHistory {
+	b, err := os.ReadFile(path)
+	if err != nil {
+		return nil
+	}
+	var rp struct {
+		History *RunHistory `json:"history"`
+	}
+	if json.Unmarshal(b, &rp) != nil || rp.History == nil || !rp.History.Replay {
+		return nil
+	}
+	return rp.History
+}
+
 func replayFile(t *testing.T, job *Job, res *Result) {
 	b, err := os.ReadFile(job.Replay)
 	if err != nil {
@@ -385,6 +456,11 @@ func replayFile(t *testing.T, job *Job, res *Result) {
 	var rp Replay
 	if err := json.Unmarshal(b, &rp); err != nil {
 		res.Error = err.Error()
+		return
+	}
+	if rp.History != nil && rp.History.Replay {
+		// handled by the caller: the run loop executes the history
+		res.Error = "history replay reached replayFile"
 		return
 	}
 	sc := scenarios[rp.Scenario]
